@@ -65,6 +65,17 @@ class Pools:
                            [59, 999999], [1799, 999999], [1800, 0], [86370, 0], [86369, 999999], [1, 0], [0, 500000],
                            [0, 499999], [45296, 789012]]
                           + [[rnd.randint(0, 86399), rnd.randint(0, 999999)] for _ in range(n(8))])
+        # times of day whose microsecond count - or whose distance to the next midnight - is a multiple of 2^32
+        # (a narrowing cast of the count / of the remainder before 1970 aliases them to zero), one of 2^31 on top (sign bit)
+        day_us = 86400 * 10**6
+        alias = []
+        for k_ in range(1, 21):
+            for t_ in (k_ * 2**32, day_us - k_ * 2**32, k_ * 2**32 + 2**31, day_us - k_ * 2**32 - 2**31):
+                if 0 <= t_ < day_us:
+                    alias.append([t_ // 10**6, t_ % 10**6])
+        self.alias_times = alias
+        pick = rnd.sample(alias, 6) + [alias[0], alias[1]]
+        self.times = uniq(self.times + pick)
         crit_t = [[0, 0], [0, 1], [43200, 0], [43199, 999999], [86399, 999999], [0, 500000], [0, 499999], [86399, 0]]
         self.ts = uniq([[d, t[0], t[1]] for d in self.dates[:20] for t in crit_t[:5]] +
                        [[d, t[0], t[1]] for d in self.dates[20:] for t in crit_t[5:7]] +
@@ -72,6 +83,7 @@ class Pools:
         # range ends first: plan_for crosses the first entries of every pool exhaustively
         self.ts = uniq([[DATE_MAX, 86399, 999999], [DATE_MIN, 0, 0], [DATE_MAX, 86399, 0], [DATE_MAX, 86399, 500000],
                         [DATE_MAX, 86399, 499999], [DATE_MIN, 0, 1], [0, 0, 0], [-1, 86399, 999999]] + self.ts)
+        self.ts = uniq(self.ts + [[d, t[0], t[1]] for d in (-1, -7305, 0, 19782, DATE_MIN + 40) for t in pick[:4]])
         self.od = uniq([[DATE_MAX, 86399, 0], [DATE_MIN, 0, 0], [DATE_MAX, 86398, 0], [DATE_MIN, 1, 0], [0, 0, 0],
                         [-1, 86399, 0], [DATE_MAX, 0, 0], [DATE_MAX - 1, 86399, 0]] + [[x[0], x[1], 0] for x in self.ts])
         self.ym = uniq([0, 1, -1, 11, 12, 13, -11, -12, -13, YM_MAX, -YM_MAX, YM_MAX - 1, -YM_MAX + 1, 119988, -119988,
@@ -84,7 +96,8 @@ class Pools:
                2**53, 2**53 + 1, -(2**53) - 1, 43200 * 10**6, 500000, 499999, -500000, 7 * 86400 * 10**6,
                7000000 * 86400 * 10**6, -7000000 * 86400 * 10**6, 59999999, 3599999999, 93784005006,
                31 * 86400 * 10**6 + 5, 32 * 86400 * 10**6, -32 * 86400 * 10**6 - 1, 33 * 86400 * 10**6, 99 * 86400 * 10**6,
-               100 * 86400 * 10**6 + 3600 * 10**6, 9 * 86400 * 10**6, 10 * 86400 * 10**6]
+               100 * 86400 * 10**6 + 3600 * 10**6, 9 * 86400 * 10**6, 10 * 86400 * 10**6,
+               2**31, 2**31 - 1, -2**31, -2**31 - 1, 2**32, -2**32, 2**32 + 1, 3 * 2**32, -5 * 2**32, 2**33 - 1]
         dts += [rnd.randint(-dtmax, dtmax) for _ in range(n(6))] + [rnd.randint(-10**12, 10**12) for _ in range(n(6))]
         self.dt = uniq([us3(x) for x in dts])
         self.i32 = uniq([0, 1, -1, I32_MIN, I32_MAX, I32_MIN + 1, 3652058, -3652058, 3652059, -3652059, 719162, -719162,
